@@ -200,6 +200,38 @@ Theorem c17_header_end_equiv :
 Proof. intros h. split; [apply w_header_norm|]. split; [apply norm_header_id|apply norm_header_idem]. Qed.
 Print Assumptions c17_header_end_equiv.
 
+(* ---- fai and crai TEXT layouts: tab-separated decimal fields, LF-terminated lines; the readers
+   read each line into a UTF-8 String, drop the LF (and a CR before it), split on tabs and parse
+   the fields.  fai: any list of records whose names are valid UTF-8 without TAB and LF reads back
+   equal (names that are not valid UTF-8 do not: c17_fai_non_utf8_line_rejected, the known finding
+   fai-non-utf8-name).  crai (the text inside the gzip member; gzip itself is not modelled): any
+   list of records with reference ids up to i32::MAX and positions >= 1 reads back equal. ---- *)
+From NV Require Import Index.TextIndex Index.TextIndexProofs.
+
+Theorem c17_fai_roundtrip : forall l, Forall fai_ok l -> read_fai (w_fai l) = Some l.
+Proof. exact fai_roundtrip. Qed.
+Print Assumptions c17_fai_roundtrip.
+
+Theorem c17_fai_non_utf8_line_rejected :
+  forall r rest, ~ In LF (f_name r) -> utf8_valid (fai_line r) = false ->
+    read_fai (w_fai (r :: rest)) = None.
+Proof. exact fai_non_utf8_line_rejected. Qed.
+Print Assumptions c17_fai_non_utf8_line_rejected.
+
+Theorem c17_crai_roundtrip : forall l, Forall crai_ok l -> read_crai (w_crai l) = Some l.
+Proof. exact crai_roundtrip. Qed.
+Print Assumptions c17_crai_roundtrip.
+
+Example c17_fai_example :
+  let l := [mkfai [99; 104; 114; 195; 169; 13] 1000 6 60 61; mkfai [] 0 18446744073709551615 1 1] in
+  read_fai (w_fai l) = Some l /\ read_fai (w_fai [mkfai [255] 1 1 1 1]) = None.
+Proof. cbv zeta. split; vm_compute; reflexivity. Qed.
+
+Example c17_crai_example :
+  let l := [mkcrai None None 0 10 20 30; mkcrai (Some 2147483647) (Some 1) 5 18446744073709551615 0 1] in
+  read_crai (w_crai l) = Some l.
+Proof. vm_compute. reflexivity. Qed.
+
 (* non-vacuity: a CSI index with an aux header, an ancestor chain (bins 585 -> 73 -> 9), a
    metadata pseudo-bin and an unplaced count; a tabix index with a generic header whose end
    column equals its start column and a name with non-ASCII bytes *)
